@@ -30,7 +30,7 @@ func init() {
 			return fw.Plan{Batches: 8, Parallel: 8, Timeout: 8 * time.Minute}
 		},
 		Floors: func(tier string) map[string]int64 {
-			return map[string]int64{"batches": 250, "actions_arrived": 2000, "region_order_checks": 400, "rejected_batches_no_frames": 30,
+			return map[string]int64{"batches": 250, "enumerated_single_fault_placements": 400, "actions_arrived": 2000, "region_order_checks": 400, "rejected_batches_no_frames": 30,
 				"retries_after_retry": 100, "retries_after_nsre": 100, "retries_after_dead-before": 100, "retries_after_dead-after": 100, "retries_after_abort": 80,
 				"multi_region_batches": 100}
 		},
@@ -39,6 +39,20 @@ func init() {
 }
 
 func runC12(c *fw.Ctx) {
+	// all single-fault placements for batches of up to 4 calls
+	for i, b := range enumBatchCases() {
+		if i%c.NBatches != c.Batch {
+			continue
+		}
+		id := fmt.Sprintf("e%d", i)
+		if i%50 == 0 {
+			c.Begin(id, b)
+		}
+		c.Eval("enum|"+b.matrix(), true)
+		c.Count("batches", 1)
+		c.Count("enumerated_single_fault_placements", 1)
+		judgeC12(c, id, runBatchCase(b, id))
+	}
 	r := c.Rand("c12")
 	n := c.Pick(400, 9600) / c.NBatches
 	for i := 0; i < n; i++ {
